@@ -11,7 +11,9 @@ from the confirmed tree, so the confirmed tree itself is always analysed as writ
   (c) tuple assignment         `a, b = x, y`               ->  `a = x` ; `b = y`              (no target read on the right,
                                                                                                 later values cannot raise
                                                                                                 unless all targets are locals)
-  (k) expression spellings     `struct.unpack(F, s)[-1]` (one field) -> `[0]`;  `range(0, n)` -> `range(n)`
+  (k) expression spellings     `struct.unpack(F, s)[-1]` (one field) -> `[0]`;  `range(0, n)` -> `range(n)`;
+                               `X[a:a+1][-1]` -> `[0]`;  `f.read(-1)` -> `f.read()`;  `A if not T else B` -> `B if T else A`;
+                               `enumerate(x, 0)` -> `enumerate(x)`;  `BytesIO(b'')` -> `BytesIO()`;  `s.rfind(x, 0)` -> `s.rfind(x)`
   (d) one-field unpacking      `(a,) = struct.unpack(F, s)`->  `a = struct.unpack(F, s)[0]`   (F a literal one-field format)
   (e) in-memory stream         `with BytesIO() as f: B`    ->  `f = BytesIO()` ; B
   (f) display ending in *name  `(a, b, c) = (x, *rest)`     ->  `a = x` ; `(b, c) = rest`
@@ -172,6 +174,16 @@ def _one_field_format(e):
 def _is_unpack_call(e):
     return (isinstance(e, ast.Call) and isinstance(e.func, ast.Attribute) and e.func.attr in ('unpack', 'unpack_from')
             and isinstance(e.func.value, ast.Name) and e.func.value.id == 'struct' and e.args and _one_field_format(e.args[0]))
+
+
+def _minus_one(e):
+    return isinstance(e, ast.UnaryOp) and isinstance(e.op, ast.USub) and isinstance(e.operand, ast.Constant) and type(e.operand.value) is int and e.operand.value == 1
+
+
+def _one_long(sl):
+    lo = 0 if sl.lower is None else (sl.lower.value if isinstance(sl.lower, ast.Constant) and type(sl.lower.value) is int else None)
+    up = sl.upper.value if isinstance(sl.upper, ast.Constant) and type(sl.upper.value) is int else None
+    return lo is not None and up is not None and lo >= 0 and up - lo == 1
 
 
 def _own_nodes(s):
@@ -375,6 +387,30 @@ class Lower(object):
                     and isinstance(x.args[0], ast.Constant) and x.args[0].value == 0 and type(x.args[0].value) is int:
                 x.args = [x.args[1]]
                 hit.append('`range(0, n)` read as `range(n)`')
+            elif isinstance(x, ast.Subscript) and _minus_one(x.slice) and isinstance(x.value, ast.Subscript) and isinstance(x.value.slice, ast.Slice) \
+                    and x.value.slice.step is None and _one_long(x.value.slice):
+                # X[a:a+1] has no or one element: its last is its first (and the same IndexError when it is empty)
+                x.slice = ast.copy_location(ast.Constant(value=0), x.slice)
+                hit.append('`[-1]` of a one-element slice read as `[0]`')
+            elif isinstance(x, ast.Call) and isinstance(x.func, ast.Name) and x.func.id == 'enumerate' and len(x.args) == 2 and not x.keywords \
+                    and isinstance(x.args[1], ast.Constant) and type(x.args[1].value) is int and x.args[1].value == 0:
+                x.args = [x.args[0]]
+                hit.append('`enumerate(x, 0)` read as `enumerate(x)`')
+            elif isinstance(x, ast.Call) and len(x.args) == 1 and not x.keywords and isinstance(x.args[0], ast.Constant) and x.args[0].value == b'' \
+                    and _is_bytesio(ast.Call(func=x.func, args=[], keywords=[])):
+                x.args = []
+                hit.append('`BytesIO(b\'\')` read as `BytesIO()`')
+            elif isinstance(x, ast.Call) and isinstance(x.func, ast.Attribute) and x.func.attr in ('find', 'rfind', 'index', 'rindex', 'count', 'startswith') and len(x.args) == 2 \
+                    and not x.keywords and isinstance(x.args[1], ast.Constant) and type(x.args[1].value) is int and x.args[1].value == 0:
+                x.args = [x.args[0]]
+                hit.append('`.%s(x, 0)` read as `.%s(x)` (the search starts at 0 anyway)' % (x.func.attr, x.func.attr))
+            elif isinstance(x, ast.Call) and isinstance(x.func, ast.Attribute) and x.func.attr == 'read' and len(x.args) == 1 and not x.keywords and _minus_one(x.args[0]):
+                x.args = []
+                hit.append('`.read(-1)` read as `.read()` (to the end of the stream)')
+            elif isinstance(x, ast.IfExp) and isinstance(x.test, ast.UnaryOp) and isinstance(x.test.op, ast.Not):
+                # `A if not T else B` evaluates T's truth once and picks the other arm: `B if T else A`
+                x.test, x.body, x.orelse = x.test.operand, x.orelse, x.body
+                hit.append('conditional expression with a negated test read with its arms exchanged')
         if hit:
             for h_ in hit:
                 self.log(s, h_)
